@@ -78,6 +78,17 @@ def expected_rating(idnt, reg, ts, names, lda):
         adm = {-1.0}
         if "feat_bin_size" in all_names and n_approach(idnt) < 600:
             adm.add(0.0)
+        # ... and among the admissible values it is the one the stand-alone
+        # rater computes from the curve as it is now (a value remembered
+        # from another state of the curve is not)
+        try:
+            sv = float(np.atleast_1d(standalone_rater(
+                reg, ts, names, lda).rate(datasets=idnt))[0])
+            if sv in adm:
+                adm = {sv}
+        except BaseException as e:
+            if isinstance(e, (KeyboardInterrupt, SystemExit, MemoryError)):
+                raise
         return adm, "no successful current fit"
     feats = IF.compute_features(idnt, which_type="all", names=all_names)
     for nm, val in zip(all_names, feats):
@@ -200,6 +211,18 @@ class Short(Driver):
     n_app = 300
 
 
+class ShortReject(Short):
+    """a short curve (size criterion fails once it is preprocessed), valid
+    and rejected preprocessing requests, fits and ratings - deeper"""
+    name = "short_reject"
+    ops = [["P", P1, {}, False],
+           ["P", ["compute_tip_position", "nope"], {}, False],
+           ["P", ["correct_tip_offset"], {}, False],
+           ["F", {}],
+           rating_op("Decision Tree"),
+           rating_op("Extra Trees", "user")]
+
+
 class Recorded(Driver):
     name = "recorded"
     ops = STATE_OPS[:1] + [["F", {"model_key": "sneddon_spher_approx"}],
@@ -216,7 +239,7 @@ class Recorded(Driver):
             "/repo/tests/data/fmt-jpk-fd_spot3-0192.jpk-force")[0]
 
 
-DRIVERS = {d.name: d() for d in (Driver, Short, Recorded)}
+DRIVERS = {d.name: d() for d in (Driver, Short, ShortReject, Recorded)}
 
 # representative curve states for the full sweep: (driver, history of ops)
 SWEEP_STATES = [
@@ -317,8 +340,9 @@ def run(tier):
             [sys.executable, "-m", "mc.props.c09", "--table"], env=env,
             cwd=VERIF_ROOT, stdout=subprocess.PIPE, stderr=subprocess.PIPE,
             text=True))
-    plan = {"quick": [("long", 3), ("short", 2)],
-            "thorough": [("long", 4), ("short", 3), ("recorded", 3)]}[tier]
+    plan = {"quick": [("long", 3), ("short", 2), ("short_reject", 4)],
+            "thorough": [("long", 4), ("short", 3), ("short_reject", 6),
+                         ("recorded", 3)]}[tier]
     ratings = set()
     for name, depth in plan:
         drv = DRIVERS[name]
